@@ -162,7 +162,8 @@ class TravelCalculator:
             return self._travel_to_position
 
         progress = (now - self._last_known_position_timestamp) / remaining_travel_time
-        return int(self._last_known_position + relative_position * progress)
+        # whole steps travelled so far - in either direction the estimate is never ahead of the drive
+        return self._last_known_position + int(relative_position * progress)
 
     def calculate_travel_time(self, from_position: int, to_position: int) -> float:
         """Calculate time to travel from one position to another."""
